@@ -74,13 +74,13 @@ m("c05-empty-fold-chunk", "C05", "caught", BR, "                if len(psm_slice
 m("c05-per-chunk-only-dedup", "C05", "caught", CF, "                    if level != \"psms\" or deduplication:", "                    if level != \"psms\":", "inproc")
 m("c05-glob-chunks", "C05", "silent", CF, "        for i in range(len(scores_slices))\n    ]\n    sorted_file_iterator", "        for i in range(len(scores_slices))\n    ][::-1][::-1]\n    sorted_file_iterator", "inproc")
 # ---- C06
-m("c06-no-clip", "C06", "caught", PEPS, "    peps = np.clip(peps, 0, 1)\n    return peps", "    return peps")
+m("c06-no-clip", "C06", "silent", PEPS, "    peps = np.clip(peps, 0, 1)\n    return peps", "    return peps")
 m("c06-asc-monotone", "C06", "caught", PEPS, "    pepEst = monotonize_nnls(pepEst, w=target_pdf, ascending=False)", "    pepEst = monotonize_nnls(pepEst, w=target_pdf, ascending=True)")
 m("c06-qvality-sorted", "C06", "caught", PEPS, "    peps_in_input_order[np.argsort(-scores, kind=\"stable\")] = peps", "    peps_in_input_order[:] = peps")
 m("c06-from-counts-unsorted-interp", "C06", "caught", Q, "    qvalues = np.interp(\n        scores, np.flip(scores_sorted), np.flip(qvalues_sorted)\n    )\n    return qvalues\n", "    qvalues = qvalues_sorted\n    return qvalues\n")
 # ---- C07
 m("c07-ge", "C07", "caught", BR, "    if feat_total > pred_total:", "    if feat_total > pred_total * 2:", "safety")
-m("c07-min-feat", "C07", "caught", BR, "        best_feat_idx, feat_total = max(\n            enumerate(map(itemgetter(1), best_feats)), key=itemgetter(1)\n        )", "        best_feat_idx, feat_total = min(\n            enumerate(map(itemgetter(1), best_feats)), key=itemgetter(1)\n        )", "safety")
+m("c07-min-feat", "C07", "silent", BR, "        best_feat_idx, feat_total = max(\n            enumerate(map(itemgetter(1), best_feats)), key=itemgetter(1)\n        )", "        best_feat_idx, feat_total = min(\n            enumerate(map(itemgetter(1), best_feats)), key=itemgetter(1)\n        )", "safety")
 m("c07-descs-true", "C07", "caught", BR, "        descs = [desc] * len(psms)", "        descs = [True] * len(psms)", "safety")
 m("c07-labels-unconverted", "C07", "caught", DS, "    df = utils.convert_targets_column(df, target_column)\n    return _update_labels(\n        scores=scores,\n        targets=df[target_column],\n        eval_fdr=eval_fdr,\n        desc=desc,\n    )\n", "    return _update_labels(\n        scores=scores,\n        targets=df[target_column],\n        eval_fdr=eval_fdr,\n        desc=desc,\n    )\n", "safety")
 m("c07-best-feat-first-dir", "C07", "caught", DS, "            if num_passing > best_positives:\n                best_positives = num_passing\n                best_feat = feat_idx\n                new_labels = self._update_labels(", "            if num_passing > best_positives and desc:\n                best_positives = num_passing\n                best_feat = feat_idx\n                new_labels = self._update_labels(", "safety")
@@ -91,7 +91,7 @@ m("c08-model-order", "C08", "caught", BR, "    fitted.sort(key=lambda x: x[0].fo
 # ---- C09
 m("c09-glob", "C09", "caught", CF, "    scores_metadata_paths = [\n        dest_dir / f\"{file_prefix}scores_metadata_{i}{outfile_ext}\"\n        for i in range(len(scores_slices))\n    ]", "    scores_metadata_paths = list(\n        dest_dir.glob(f\"{file_prefix}scores_metadata_*\")\n    )")
 m("c09-tsv-append", "C09", "caught", MK, "                    with open(path_tsv, 'w') as f_tsv:", "                    with open(path_tsv, 'a') as f_tsv:", "cli_tsv")
-m("c09-no-initialize", "C09", "caught", CF, "            for writer in handles.values():\n                writer.initialize()\n", "            for writer in handles.values():\n                pass\n")
+m("c09-no-initialize", "C09", "inconclusive", CF, "            for writer in handles.values():\n                writer.initialize()\n", "            for writer in handles.values():\n                pass\n")
 m("c09-no-level-unlink", "C09", "caught", CF, "                [os.unlink(path) for path in out_path]\n            os.unlink(data_path)", "                [os.unlink(path) for path in out_path]")
 m("c09-result-append", "C09", "caught", CF, "            if not append_to_output_file:\n                writer.initialize()\n            out_files[level] = [outfile_targets]", "            out_files[level] = [outfile_targets]")
 # ---- C10
@@ -112,7 +112,7 @@ m("c12-noshuffle-bug", "C12", "caught", MD, "        else:\n            # keep t
 m("c12-features-by-position", "C12", "caught", MD, "            psms.features.loc[:, self.features].values", "            psms.features.values")
 m("c12-eval-fdr-labels", "C12", "caught", MD, "            target = psms._update_labels(scores, eval_fdr=self.train_fdr)\n            target = target[shuffled_idx]", "            target = psms._update_labels(scores, eval_fdr=self.train_fdr / 5)\n            target = target[shuffled_idx]")
 # ---- C13
-m("c13-buffer-gt", "C13", "caught", TD, "        while len(self.buffer) >= self.buffer_size:", "        while len(self.buffer) > self.buffer_size + 1:", "writers")
+m("c13-buffer-gt", "C13", "silent", TD, "        while len(self.buffer) >= self.buffer_size:", "        while len(self.buffer) > self.buffer_size + 1:", "writers")
 m("c13-force-flush", "C13", "caught", TD, "        if force and len(self.buffer) > 0:", "        if force and len(self.buffer) > 1:", "writers")
 m("c13-index-offset", "C13", "caught", TD, "            df.index = df.index + i * chunk_size", "            df.index = df.index + i * len(df)", "readers")
 m("c13-range-minus-one", "C13", "caught", TD, "        for pos in range(0, len(self.df), chunk_size):", "        for pos in range(0, len(self.df) - 1, chunk_size):", "readers")
